@@ -109,6 +109,7 @@ pub fn minimise(sc0: &Scenario, sb: &Sandbox, t: &Target, mut budget: usize) -> 
                 s.use_c = false;
                 s.explicit_f = false;
                 s.argv0_ninja = false;
+                s.f_spelling = 0;
             });
             if spec.faults.fail.len() > 1 {
                 for k in 0..spec.faults.fail.len() {
